@@ -58,6 +58,10 @@ def cases(draw, tier):
         if g.boolean():
             blocks.append(mk(g.integer(1, 3)))
         tree = {"k": "bd", "ch": blocks, "mult": [g.integer(1, 2) for _ in blocks] if g.boolean() else None}
+        if g.boolean():
+            # round 6: the very same operator object at two positions that are not adjacent (M, N, M[, c])
+            blocks[2] = blocks[0]
+            tree["share"] = [[0, 2]]
     if draw(st.integers(1, 10)) == 1:
         # two blocks that are different VIEWS of one buffer (B and B^T): same address, shape and dtype, different strides
         m = g.integer(2, 4)
